@@ -253,13 +253,17 @@ func codonMenu() []hcall {
 			b, _ := json.Marshal(deepCopyTable(codon.GetCodonTable(4)))
 			return codon.ParseCodonJSON(b)
 		}, func(v any) string { return tv(v.(codon.Table)) }},
-		{"Optimize(MKF*,copy of 1, first answer)", func() any {
+		{"Optimize(MKF*,copy of 1) translated back", func() any {
 			var out string
 			once(func(c *mc.Ctx) {
 				vrand.Enabled = true
-				d, err := codon.Optimize("MKF*", deepCopyTable(codon.GetCodonTable(1)))
+				t := deepCopyTable(codon.GetCodonTable(1))
+				d, err := codon.Optimize("MKF*", t)
 				vrand.Enabled = false
-				out = fmt.Sprint(d, err)
+				// what is observed does not depend on which codons were drawn (an implementation may draw from a source
+				// of its own): the protein the gene translates back to, its length, and the error
+				back, _ := codon.Translate(d, t)
+				out = fmt.Sprint(back, len(d), err)
 			})
 			return out
 		}, showSprint},
